@@ -61,14 +61,23 @@ def type_summary(ctx):
                     return e
         return None
 
+    # `v.is_u64()` / `v.is_i64()` are serde_json's own spelling of `as_u64().is_some()` / `as_i64().is_some()`
+    # (is_f64 is NOT the same as as_f64().is_some(): the latter accepts integers as well)
+    EQUIV = {"as_u64": "is_u64", "as_i64": "is_i64"}
     for arm, (name, accs) in EXPECT.items():
         evs = [acc(a, arm) for a in accs]
+        direct = False
+        if name in ("U64", "I64") and evs[0] is None and acc(EQUIV[accs[0]], arm) is not None:
+            evs = [acc(EQUIV[accs[0]], arm)]
+            direct = True
         if any(e is None for e in evs):
             r.status = "violated"
             r.witness = {"what": f"field type {name}: expected accessor(s) {accs} not consulted on that arm",
                          "span": None, "call": "type_allows_value", "path": [], "model": {}}
             return out
-        if name in ("U64", "I64", "F64"):
+        if direct:
+            expected = E.sym(evs[0].site, "bool")
+        elif name in ("U64", "I64", "F64"):
             # verdict = Option::is_some(<accessor result>)
             some = [e for e in E.events if re.search(r"Option::<.*>::is_some$", e.func)
                     and any(evs[0].site in x for x in E.trace(e.args[0], e.env, depth=3))]
